@@ -1,4 +1,11 @@
 pub mod ctx;
+pub mod extract;
+pub mod gen_syntax;
+pub mod model;
+pub mod real;
+pub mod refimport;
+pub mod refparse;
+pub mod render;
 pub mod panicguard;
 pub mod props;
 pub mod report;
@@ -14,6 +21,9 @@ pub fn run_property(ctx: &Ctx, rep: &mut Report) -> Result<(), String> {
         "C06" => {
             props::c06::run_lib(ctx, rep);
         }
+        "C07" => props::c07::run(ctx, rep),
+        "C11" => props::c11::run(ctx, rep),
+        "C13" => props::c13::run(ctx, rep),
         "C20" => props::c20::run(ctx, rep),
         p => return Err(format!("unknown property {p}")),
     }
@@ -24,6 +34,9 @@ pub fn replay_case(case: &Value, ctx: &Ctx) -> Result<Vec<Violation>, String> {
     let _ = ctx;
     match case["property"].as_str().unwrap_or("") {
         "C06" => Ok(props::c06::replay(case)),
+        "C07" => Ok(props::c07::replay(case)),
+        "C11" => Ok(props::c11::replay(case)),
+        "C13" => Ok(props::c13::replay(case)),
         "C20" => Ok(props::c20::replay(case)),
         p => Err(format!("unknown property {p}")),
     }
